@@ -3,6 +3,7 @@
 import json, sys
 pid, wt = sys.argv[1], sys.argv[2]
 n = sys.argv[3] if len(sys.argv) > 3 else "2"
+STYLE = sys.argv[4] if len(sys.argv) > 4 else ""
 for l in open('/verif/properties.jsonl'):
     p = json.loads(l)
     if p['id'] == pid:
@@ -16,7 +17,7 @@ STATEMENT: {p['statement']}
 QUANTIFIER: {p['quantifier']['text']}
 CODE ANCHORS: {json.dumps(p['anchors'].get('mechanism', []))}
 
-Task: produce {n} DIFFERENT, independent source changes ("mutants") to the project's non-test source code, each of which breaks this property while the project still compiles and the existing test suite still passes. Each change must be realistic (the kind of bug a maintainer could introduce in a refactor or optimisation) and SUBTLE: it must need something specific to manifest — an unusual input, a boundary value, a particular combination of operand types, a multi-step sequence, or two cooperating sites that each look fine alone — NOT something that ordinary use would expose at once. Do not edit tests. Do not add dependencies (the sandbox is offline; use `cargo ... --offline`).
+Task: produce {n} DIFFERENT, independent source changes ("mutants") to the project's non-test source code, each of which breaks this property while the project still compiles and the existing test suite still passes. Each change must be realistic (the kind of bug a maintainer could introduce in a refactor or optimisation) and SUBTLE: it must need something specific to manifest — an unusual input, a boundary value, a particular combination of operand types, a multi-step sequence, or two cooperating sites that each look fine alone — NOT something that ordinary use would expose at once. {STYLE} Do not edit tests. Do not add dependencies (the sandbox is offline; use `cargo ... --offline`).
 
 For each mutant i (1..{n}):
  1. Start from a clean tree (`git -C {wt} checkout -- . && git -C {wt} clean -fd -e target -e mutants`).
